@@ -186,6 +186,27 @@ def detN [OfNat K 0] [OfNat K 1] : Nat → List (List K) → K
         let minor := rest.map (dropNth j)
         (acc.1 + acc.2 * (r0.getD j 0) * detN fuel minor, -acc.2)) ((0 : K), (1 : K))).1
 
+/-! ## general M×N `Mat`, `Vec<N>`, `Row<N>` as lists (sizes 1..6, non-square products) -/
+
+def lget [OfNat K 0] (m : List (List K)) (i j : Nat) : K := (m.getD i []).getD j 0
+/-- `Mat<M,N> * Mat<N,P>`: element (i,j) = Σ_k a(i,k) b(k,j) -/
+def lmul [OfNat K 0] (n p : Nat) (a b : List (List K)) : List (List K) :=
+  a.map fun row => (List.range p).map fun j => (List.range n).foldl (fun acc k => acc + row.getD k 0 * lget b k j) 0
+/-- `~m` of an M×N matrix -/
+def ltranspose [OfNat K 0] (m n : Nat) (a : List (List K)) : List (List K) :=
+  (List.range n).map fun j => (List.range m).map fun i => lget a i j
+def lvadd (a b : List K) : List K := List.zipWith (· + ·) a b
+def lvsub (a b : List K) : List K := List.zipWith (· - ·) a b
+def lvscale (a : List K) (s : K) : List K := a.map (· * s)
+def lvneg (a : List K) : List K := a.map (fun x => -x)
+/-- `~a * b` (Row × Vec) -/
+def lvdot [OfNat K 0] (a b : List K) : K := (List.zipWith (· * ·) a b).foldl (· + ·) 0
+/-- `a * ~b` (Vec × Row): outer product -/
+def louter (a b : List K) : List (List K) := a.map fun x => b.map fun y => x * y
+/-- `~a * m` (Row × Mat) for an N×P matrix -/
+def lrowmul [OfNat K 0] (n p : Nat) (a : List K) (m : List (List K)) : List K :=
+  (List.range p).map fun j => (List.range n).foldl (fun acc k => acc + a.getD k 0 * lget m k j) 0
+
 /-! ## negator<N>: same memory as N, value −v -/
 structure Negator (K : Type) where
   v : K
